@@ -344,7 +344,7 @@ prop("C20",
 )
 
 prop("C09",
-     coq=["gen/Extracted.v", "model/Trie.v", "model/Match.v", "model/LFProto.v", "proofs/LFProofs.v", "chk/C01chk.v", "chk/C09chk.v", "props/C09.v", "refute/C09.v"],
+     coq=["gen/Extracted.v", "model/Trie.v", "model/Match.v", "model/LFProto.v", "proofs/LFProofs.v", "model/LFSearch.v", "model/LFShape.v", "proofs/LFSearchProofs.v", "chk/C01chk.v", "chk/C09chk.v", "props/C09.v", "refute/C09.v"],
      n={"quick": 64, "thorough": 600, "search": 200},
      shrink_fields=["rounds"], shrink_min=1,
      rule="5/8 'rounds': 30-70 (thorough 100-300) rounds on the real memlockfree provider; in a round 2-6 operations (Subscribe / UnSubscribe / Retain on a pool of shared and nested filters, every key touched at most once per round) "
@@ -356,9 +356,13 @@ prop("C09",
                 "for the protocol machine model/LFProto.v (one atomic access per step: counters, maps, remove flag, WaitGroup, callback; arbitrary scheduler) started in that mode: in EVERY reachable configuration at most one operation is in progress "
                 "and while the mutex is held a step of any other thread changes nothing - every execution is a sequential composition of whole operations; whole operations on pairwise distinct keys commute on the abstract subscription map (any permutation). "
                 "refute/C09.v: without the mutex three schedules leave the index in a state no sequential order produces (acknowledged subscription in a detached leaf; double clean-up prunes a sibling; retry from a pruned parent) - all three reproduced on "
-                "the implementation before the repair. Partial: linearizability of the lock-free SEARCH beside one writer is not proved (bounded from below and above by the check); sequential correctness of operations and search is C01/C07.",
+                "the implementation before the repair. The lock-free SEARCH beside the writers (model/LFSearch.v: a reader without lock, one children.Load per level, then the node's subs, interleaved with the writers' accesses in ANY order): "
+                "C09_search_finds_acknowledged_subscription and C09_search_misses_unsubscribed - from any reachable configuration, a subscription in place that no unfinished UNSUBSCRIBE targets is found and a subscriber not registered that no unfinished SUBSCRIBE registers is not, "
+                "whatever is created or pruned around (C09_index_invariant: tree shape, unreachable nodes are empty, counters bound the sets). C09_protocol_shape: the translator re-reads the ORDER of atomic accesses and the shared-state conditions of leafInsertNode, "
+                "subscriptionInsert/Remove, nodesCleanup and the search from node.go and the theorem requires them to be the ones the machine was written against. Partial: an operation on the very pair (path, subscriber) overlapping a search may be seen or not (both are linearizations, no claim); "
+                "retained messages are not in the protocol machine; sequential correctness of operations and search is C01/C07.",
      level_note="Trusted: Coq kernel + vm_compute; tools/goextract (lock-discipline reader: first statements of the four writers); the hand-written protocol machine (its three refuting schedules and their locked counterparts are replayed on the implementation); "
                 "Go's sync.Mutex / sync.Map / atomic semantics; the Go scheduler for the concurrent rounds (a sample of interleavings, not an enumeration).",
-     trusted_base=["tools/goextract: lock discipline of subscriptionInsert / subscriptionRemove / retainInsert / retainRemove", "Go sync.Mutex, sync.Map and sync/atomic semantics", "Go scheduler (concurrent rounds sample interleavings)"],
-     assumptions=["one atomic access of the Go code = one step of LFProto", "searches are readers: they never unlink (node.getRetained clears an expired message only)"],
+     trusted_base=["tools/goextract: lock discipline of subscriptionInsert / subscriptionRemove / retainInsert / retainRemove; order of atomic accesses (accessShape) of the protocol functions", "Go sync.Mutex, sync.Map and sync/atomic semantics", "Go scheduler (concurrent rounds sample interleavings)"],
+     assumptions=["one atomic access of the Go code = one step of LFProto / LFSearch", "searches are readers: they never unlink (node.getRetained clears an expired message only)", "sync.Map.Range visits a key that is present during the whole call and none that is absent during the whole call"],
 )
